@@ -8,6 +8,7 @@ COMPONENTS = [
     {'name': 'c03', 'oracle': False, 'what': 'structured mutation of valid files, full public API sequence, checked build'},
     {'name': 'alpha', 'oracle': True, 'what': 'alpha application loop'},
     {'name': 'c01model', 'oracle': True, 'extra': ['huff'], 'what': 'Model.Huffman build_implicit / build_two_node / read_symbol (Ok, Err or panic kind) vs HuffmanTree through hooks'},
+    {'name': 'readimage', 'oracle': True, 'what': 'read_image / read_frame glue on valid, damaged and truncated files vs Model.ReadImage (error variants, no panic)'},
     {'name': 'c08', 'oracle': True, 'what': 'container layer on well-formed and malformed files (error class and no panic)'},
 ]
 
